@@ -619,6 +619,10 @@ pub fn lifecycle(rng: &mut Rng) -> Program {
     let nact = g.rng.weighted(&[70, 30]) + 1;
     for t in 0..nact {
         let mut a = rand_actor(g.rng, 1 + t as u32, nclients, true);
+        // a start-up that fails: nothing is handled, no stopped(), everybody who waits learns of the failure
+        if !a.entry.stream() && g.rng.chance(1, 25) {
+            a.started_err_at = vec![0];
+        }
         // a one-shot job: it asks for its own stop from started() (or, rarely, from stopped(), where the request is moot)
         if g.rng.chance(1, 12) {
             a.started.push(SStep::CtxStop);
